@@ -368,16 +368,6 @@ Theorem parse_program_propagates ts :
   end.
 Proof. rewrite parse_program_eq. destruct (parse_tops _ pst0 ts); [exact I|reflexivity|reflexivity|reflexivity]. Qed.
 End PROGRAM.
-Print Assumptions accepted_names_distinct.
-Print Assumptions parse_program_name_check.
-Print Assumptions duplicate_text_label_iff.
-Print Assumptions duplicate_movement_label_iff.
-Print Assumptions accepted_iff.
-Print Assumptions parse_program_propagates.
-Print Assumptions dup_text_reports_later.
-Print Assumptions dup_text_none_nodup.
-Print Assumptions dup_mov_reports_earlier.
-Print Assumptions dup_mov_none_nodup.
 
 (* ================================================================================================================== *)
 (* PART 2: the emitter's label check (clash in render_bodies)                                                          *)
@@ -772,14 +762,6 @@ Proof.
   rewrite emit_script_eq. destruct (emit_graph body) as [w| | | |tk' b'] eqn:E; try discriminate; [intros _; now exists w|].
   exfalso. exact (emit_graph_no_label_error body tk' b' E).
 Qed.
-Print Assumptions emit_script_label_check.
-Print Assumptions emit_script_accepts_iff.
-Print Assumptions emit_script_rejects_iff.
-Print Assumptions emit_script_error_token.
-Print Assumptions emit_script_label_error_has_graph.
-Print Assumptions generated_labels_spec.
-Print Assumptions render_chunks_cases.
-Print Assumptions graph_labels_are_source_labels.
 
 (* ================================================================================================================== *)
 (* 2e. programs: the scripts of a program in emission order, and the first script error                                *)
@@ -916,7 +898,6 @@ Proof.
   unfold emit_program, emit_program_instrs. rewrite <- (emit_tops_err mp (map xname (texts p)) optimize (tops p) 0).
   destruct (emit_tops mp (map xname (texts p)) optimize (tops p) 0) as [[x n]| | | |]; reflexivity.
 Qed.
-Print Assumptions emit_program_error.
 
 (* a script without clash: its chunk graph is built and no label statement of its body (at any depth) is named like one of
    its generated chunk labels or like a text *)
@@ -1002,9 +983,6 @@ Proof.
       destruct EC' as (w2 & HW2 & F). rewrite HW in HW2. inversion HW2; subst.
       destruct (F lab Hl) as [A B]. destruct K; auto.
 Qed.
-Print Assumptions emit_program_accepts_iff.
-Print Assumptions emit_program_label_error.
-Print Assumptions emit_program_rejects_iff.
 
 (* ================================================================================================================== *)
 (* PART 3: source texts (Compile.compile)                                                                              *)
@@ -1092,10 +1070,6 @@ Theorem compile_duplicate_movement_located optimize mpath src st tk :
                     emsg := t "duplicate movement label" |}.
 Proof. intros H D1 D2. rewrite compile_eq, parse_program_eq, H, D1, D2. reflexivity. Qed.
 End SOURCE.
-Print Assumptions compiled_without_name_clash.
-Print Assumptions compile_label_error_located.
-Print Assumptions compile_duplicate_text_located.
-Print Assumptions compile_duplicate_movement_located.
 
 (* ================================================================================================================== *)
 (* PART 1d: the statement reported by the parser's name check is always one the author wrote                           *)
@@ -1404,9 +1378,6 @@ Proof.
   - exists e1, tk, e2. tauto.
 Qed.
 End TOPS.
-Print Assumptions parse_tops_names.
-Print Assumptions duplicate_text_reports_statement.
-Print Assumptions duplicate_movement_reports_statement.
 
 (* ================================================================================================================== *)
 (* PART 4: examples - the hypotheses are satisfiable; which statement is reported; what is NOT detected                *)
@@ -1578,5 +1549,3 @@ Definition src_text_script := "script A { lock }" ++ nl ++ "text A { ""x"" }".
 Example not_detected_text_vs_script : compiled src_text_script = true /\ out_labels src_text_script = Some ["A"; "A"].
 Proof. split; vm_compute; reflexivity. Qed.
 End EXAMPLES.
-Print Assumptions ex_script_hyp.
-Print Assumptions not_detected_other_scripts_label.
